@@ -155,6 +155,23 @@ class Ctx(object):
             return
         self.failures.append({"what": what if len(what) <= 400 else what[:400] + " …", "key": key, "case": case})
 
+    def guard(self, fn, case, *a):
+        """run one case; an exception escaping from the implementation (innermost frame inside /repo or
+        Biopython) is a failure of the property on that case, an exception of the harness is re-raised"""
+        import traceback
+        try:
+            return fn(self, case, *a)
+        except Exception as e:  # noqa
+            tb = traceback.extract_tb(e.__traceback__)
+            inner = tb[-1].filename if tb else ""
+            repo = os.environ.get("MOCLO_REPO", "/repo")
+            if inner.startswith(repo) or "/site-packages/" in inner or inner.startswith("<frozen"):
+                where = next((f for f in reversed(tb) if f.filename.startswith(repo)), tb[-1])
+                self.fail("the implementation raised {}: {} (at {}:{})".format(
+                    type(e).__name__, str(e)[:120], os.path.relpath(where.filename, repo), where.lineno), case)
+                return None
+            raise
+
     def op(self, op, case=None, reply=None):
         """register an operation for the correspondence; `reply` = the implementation's reply when the
         property module already computed it from the real code"""
